@@ -819,7 +819,9 @@ func TestVerif_C30(t *testing.T) {
 						acc16.Add(1)
 					} else {
 						rej16.Add(1)
-						r.Nontrivial("w16" + string(buf[:m+1]))
+						if z == 0 {
+							r.Nontrivial("w16" + string(buf[:m+1]))
+						}
 					}
 					for d2 := 0; d2 < 10; d2++ {
 						buf[m+1] = byte('0' + d2)
